@@ -182,3 +182,5 @@ def run(ctx):
     r5_3(ctx)
     r5_4(ctx)
     r5_5(ctx)
+    from .C04 import r4_2
+    r4_2(ctx)  # an eligible combination that can_add_resources rejects starves a READY task for ever
